@@ -840,6 +840,27 @@ func PoolPut(p *sync.Pool, x interface{}) {
 
 // ---- API for harness threads -------------------------------------------------
 
+// SelStart decides which of the n communication cases of a select statement is polled first (the instrumenter
+// polls the cases non-blockingly in rotation before falling back to the original select), i.e. which of several
+// READY cases is taken: a tape choice, so that it is explored and replays. Outside a simulation: 0.
+func SelStart(site int32, n int) int {
+	s := cur.Load()
+	if s == nil || n < 2 {
+		return 0
+	}
+	if s.poisoned.Load() {
+		runtime.Goexit()
+	}
+	return s.tape.Choose(n)
+}
+
+// ZeroOfChan returns the zero value of a channel's element type: the instrumenter declares the (shared, pre-Go-1.22)
+// loop variable of a rewritten `for v := range ch` loop with it.
+func ZeroOfChan[T any](c <-chan T) T {
+	var z T
+	return z
+}
+
 // Active returns the running simulation (nil outside a simulation).
 func Active() *Sim { return cur.Load() }
 
